@@ -7,7 +7,7 @@ paths that go through plain attributes and builtin containers only."""
 
 FEATURES = ['property', 'nondata_desc', 'data_desc', 'slots', 'meta_property', 'meta_desc',
             'getattr', 'getattribute', 'dir', 'getitem', 'iter', 'next', 'call', 'len', 'bool',
-            'classattr', 'instattr', 'nested', 'method']
+            'classattr', 'instattr', 'nested', 'method', 'sub_builtin_desc']
 
 PRELUDE = '''
 import collections, types
@@ -27,6 +27,22 @@ class Data:
         return 12
     def __set__(self, obj, value):
         pass
+
+class LazyClassMethod(classmethod):
+    """user descriptor deriving from a builtin descriptor type"""
+    def __get__(self, obj, typ=None):
+        COUNTER[('LazyClassMethod', '__get__')] += 1
+        return super().__get__(obj, typ)
+
+class CachedStatic(staticmethod):
+    def __get__(self, obj, typ=None):
+        COUNTER[('CachedStatic', '__get__')] += 1
+        return super().__get__(obj, typ)
+
+class LoggedProperty(property):
+    def __get__(self, obj, typ=None):
+        COUNTER[('LoggedProperty', '__get__')] += 1
+        return 13
 
 class Leaf:
     """plain class used as a stored value"""
@@ -59,6 +75,10 @@ def gen_class(rnd, name, base, feats, meta=None):
         body.append("    nd = NonData('%s.nd')" % name)
     if 'data_desc' in feats:
         body.append("    dd = Data('%s.dd')" % name)
+    if 'sub_builtin_desc' in feats:
+        body.append('    lcm = LazyClassMethod(lambda cls: Leaf())')
+        body.append('    csm = CachedStatic(lambda: Leaf())')
+        body.append('    lprop = LoggedProperty(lambda self: Leaf())')
     body.append('    def __init__(self):')
     init = []
     if 'instattr' in feats:
